@@ -337,7 +337,7 @@ func (rs *runState) runChild(sub *Sub, race bool, start, end, w int) (next int) 
 	}
 	to := sub.TimeoutS
 	if to == 0 {
-		to = 600
+		to = 1800
 	}
 	if race {
 		to *= 4
